@@ -280,6 +280,15 @@ func vcRunC08(t *vcTrial, cfg vc08Cfg) {
 	}
 	vcSetPlan(t.Plan)
 	defer vcSetPlan(nil)
+	if faultPM := []int{0, 0, 0, 100, 400}[r.intn(5)]; faultPM > 0 {
+		// spurious EAGAIN at the sendmsg wrapper: partial-write boundaries at any position
+		fp := &vcFaultPlan{Seed: r.next(), Rules: []*vcFaultRule{{Site: vfltSendmsg, Errno: syscall.EAGAIN, FD: -1, PerMille: faultPM}}}
+		vcSetFaults(fp)
+		defer func() {
+			vcSetFaults(nil)
+			t.Stat("spurious_eagain_injected", int(fp.Fired()))
+		}()
+	}
 	mark := vcTraceMark()
 	w := &vcStreamWriter{C: conn, Seed: seed, R: vfNewRng(r.next()), MaxMsg: 256 << 10, NoSelfFlush: true}
 	outcomes := ""
